@@ -206,15 +206,15 @@ class Engine(object):
         if isinstance(op, ast.Div):
             x, y = self.to_real(a), self.to_real(b)
             self.div_guard(st, y, line)
-            return VReal(x / y)
+            return VReal(self.fl(st, x / y, 'div', x, y))
         if real:
             x, y = self.to_real(a), self.to_real(b)
             if isinstance(op, ast.Add):
-                return VReal(x + y)
+                return VReal(self.fl(st, x + y, 'add', x, y))
             if isinstance(op, ast.Sub):
-                return VReal(x - y)
+                return VReal(self.fl(st, x - y, 'sub', x, y))
             if isinstance(op, ast.Mult):
-                return VReal(x * y)
+                return VReal(self.fl(st, x * y, 'mul', x, y))
             if isinstance(op, ast.FloorDiv):
                 self.div_guard(st, y, line)
                 k = smt.fresh("fl")
@@ -266,6 +266,30 @@ class Engine(object):
                 if z3.is_app_of(a, z3.Z3_OP_ITE) and not z3.is_int_value(b):
                     return z3.If(a.arg(0), self.mul_ite(a.arg(1), b, depth + 1), self.mul_ite(a.arg(2), b, depth + 1))
         return smt.som(x * y)
+
+    def fl(self, st, r, op=None, x=None, y=None):
+        """IEEE double rounding of one operation under the standard relative-error model (A-FLERR), when enabled.
+        Exact cases carry no error term: a constant result, and scaling an integer-valued operand (< 2^53, stated
+        magnitude bound) by a power of two."""
+        if not getattr(self, "float_err", False) or self.spec_depth or smt.conc_real(r) is not None:
+            return r
+        if op in ("mul", "div"):
+            def pow2(t):
+                c = smt.conc_real(t)
+                if c is None or c <= 0:
+                    return False
+                n, d = c.numerator, c.denominator
+                return (n & (n - 1)) == 0 and (d & (d - 1)) == 0
+
+            def intval(t):
+                return z3.is_app_of(smt.simp(t), z3.Z3_OP_TO_REAL)
+            if (pow2(y) and intval(x)) or (op == "mul" and pow2(x) and intval(y)):
+                return r
+        e = smt.fresh("eps", REAL)
+        u = z3.RealVal("1/9007199254740992")  # 2^-53
+        st.assume(z3.And(-u <= e, e <= u))
+        self.assume_tag("A-FLERR")
+        return r * (1 + e)
 
     def div_guard(self, st, y, line):
         c = smt.conc_real(y) if y.sort() == REAL else None
